@@ -70,7 +70,7 @@ def pair_obs(eng, A, B, only=None, exclude=()):
     return obs
 
 
-def cat_cat(eng, nr=2, nc=3, rows_date=False, ins=True, values=True, medians=False, strict=False, multi_diff=False, valueless=False):
+def cat_cat(eng, nr=2, nc=3, rows_date=False, ins=True, values=True, medians=False, strict=False, multi_diff=False, valueless=False, hide_valued=False):
     if medians:
         # the medians fork on the value order and on every cumulative threshold: own small scenario, concrete values
         rv, cv = [3, 1, 2][:nr], [2, 5, 1][:nc]
@@ -92,8 +92,15 @@ def cat_cat(eng, nr=2, nc=3, rows_date=False, ins=True, values=True, medians=Fal
     cols = ("cat", "b", nc, {"missing_at": (0,), "insertions": cins, "numeric_values": {k + 1: v for k, v in enumerate(cv)} if values else None})
     w = CellWorld(eng, [rows, cols], w_strict=strict)
     P = eng.pyreal("P", lo=0)
-    A = Cube(w.response(), population=P).partitions[0]
-    B = Cube(w.transposed().response(), population=P).partitions[0]
+    ta = tb = None
+    if hide_valued:
+        # every category of the second variable that carries a numeric value is hidden, the value-less one stays visible
+        ids = w.cat_ids(1)
+        hide = {str(i): {"hide": True} for k, i in enumerate(ids) if cv[k] is not None}
+        ta = {"columns_dimension": {"elements": dict(hide)}}
+        tb = {"rows_dimension": {"elements": dict(hide)}}
+    A = Cube(w.response(), transforms=ta, population=P).partitions[0]
+    B = Cube(w.transposed().response(), transforms=tb, population=P).partitions[0]
     if medians:
         return pair_obs(eng, A, B, only=MEDIANS)
     return pair_obs(eng, A, B, exclude=MEDIANS)
@@ -117,6 +124,7 @@ def specs(tier):
     add("cat x cat plain", "cat_cat", dict(ins=False))
     add("cat x cat insertions + values (strictly positive counts)", "cat_cat", dict(strict=True))
     add("cat x cat values, a value-less category on each dimension", "cat_cat", dict(nr=3, nc=3, ins=False, strict=True, valueless=True))
+    add("cat x cat values, every valued category of one variable hidden", "cat_cat", dict(nr=3, nc=3, ins=False, strict=True, valueless=True, hide_valued=True))
     add("cat x cat insertions, zero counts allowed", "cat_cat", dict(nr=2, nc=2, values=False))
     add("cat x cat medians", "cat_cat", dict(nr=2, nc=2, ins=False, medians=True), max_paths=2000)
     add("catdate x cat", "cat_cat", dict(rows_date=True, values=False))
